@@ -264,8 +264,83 @@ def run_chunk(chunk):
     return out
 
 
+def bulk_case(n=130):
+    """more stored isotherms than any internal batch size: everything uploaded comes back (all, and by criteria), a deletion
+    removes exactly one"""
+    import pygaps
+    import pygaps.parsing.sqlite as S
+    from pgv.checks import c09
+    pygaps.logger.disabled = True
+    tmp = tempfile.mkdtemp(prefix='pgv-c08b-')
+    reg0 = c09._registries()
+    try:
+        db = os.path.join(tmp, 'bulk.db')
+        shutil.copyfile(empty_template(tmp), db)
+        common = dict(material='pgv_bulk_m', adsorbate='pgv_bulk_a', pressure_mode='absolute', pressure_unit='bar', loading_basis='molar', loading_unit='mmol',
+                      material_basis='mass', material_unit='g', temperature_unit='K')
+        isos = [pygaps.core.baseisotherm.BaseIsotherm(temperature=200 + k, serial=k + 0.5, **common) for k in range(n)]
+        for i in isos:
+            S.isotherm_to_db(i, db_path=db, verbose=False)
+        want = {i.iso_id for i in isos}
+        got = {i.iso_id for i in S.isotherms_from_db(db_path=db, verbose=False)}
+        by = {i.iso_id for i in S.isotherms_from_db(criteria={'material': 'pgv_bulk_m'}, db_path=db, verbose=False)}
+        probs = []
+        if got != want:
+            probs.append(f"{len(got)} of {n} isotherms retrieved")
+        if by != want:
+            probs.append(f"{len(by)} of {n} retrieved by criteria")
+        S.isotherm_delete_db(isos[3], db_path=db, verbose=False)
+        after = {i.iso_id for i in S.isotherms_from_db(db_path=db, verbose=False)}
+        if after != want - {isos[3].iso_id}:
+            probs.append(f"after one deletion {len(after)} retrieved, expected {n - 1} (exactly the deleted one missing: {after == want - {isos[3].iso_id}})")
+        return {'name': f"one_file|bulk:{n}_isotherms_uploaded_retrieved_one_deleted", 'ok': not probs, 'detail': '; '.join(probs), 'ops': None}
+    finally:
+        c09._restore(reg0)
+        shutil.rmtree(tmp, ignore_errors=True)
+
+
+def value_type_cases():
+    """a stored isotherm comes back equal (==, same identifier) for every kind of metadata value"""
+    import pygaps
+    import pygaps.parsing.sqlite as S
+    from pgv.checks import c09
+    pygaps.logger.disabled = True
+    tmp = tempfile.mkdtemp(prefix='pgv-c08v-')
+    reg0 = c09._registries()
+    try:
+        db = os.path.join(tmp, 'v.db')
+        shutil.copyfile(empty_template(tmp), db)
+        common = dict(material='pgv_val_m', adsorbate='pgv_val_a', temperature=300, pressure_mode='absolute', pressure_unit='bar', loading_basis='molar',
+                      loading_unit='mmol', material_basis='mass', material_unit='g', temperature_unit='K')
+        for tag, kw in (('float', dict(ratio=3.5)), ('text', dict(note='x3')), ('true', dict(flag=True)), ('integer', dict(count=3)), ('negative_integer', dict(offset=-2))):
+            i = pygaps.core.baseisotherm.BaseIsotherm(**kw, **common)
+            S.isotherm_to_db(i, db_path=db, verbose=False)
+            back = [x for x in S.isotherms_from_db(db_path=db, verbose=False)]
+            ok = len(back) == 1 and back[0] == i
+            yield {'name': f"one_file|retrieved_equals_stored:{tag}_metadata", 'ok': bool(ok), 'ops': None,
+                   'detail': '' if ok else str({k: (v, type(v).__name__) for k, v in (back[0].to_dict().items() if back else []) if k in kw})}
+            S.isotherm_delete_db(i, db_path=db, verbose=False)
+    finally:
+        c09._restore(reg0)
+        shutil.rmtree(tmp, ignore_errors=True)
+
+
+@replayer('c08.value')
+def _value(spec, model):
+    bad = [r for r in value_type_cases() if not r['ok']]
+    return {'confirmed': bool(bad), 'observed': [(b['name'], b['detail']) for b in bad], 'expected': 'retrieved isotherm == stored isotherm'}
+
+
+@replayer('c08.bulk')
+def _bulk(spec, model):
+    r = bulk_case()
+    return {'confirmed': not r['ok'], 'observed': r['detail'], 'expected': 'every uploaded isotherm is retrieved'}
+
+
 def history_cases(seed, thorough=False):
     from pgv import par
+    yield bulk_case(260 if thorough else 130)
+    yield from value_type_cases()
     hs, two = histories(seed, thorough)
     items = [(1, h) for h in hs] + [(2, h) for h in two]
     res, crashes = par.pmap(run_chunk, par.chunks(items, 32))
